@@ -74,6 +74,8 @@ type harness struct {
 	curDef   int // serial of the build whose definition the model driver currently holds
 	// keepDefaults: the implementation's GetSchemaDefinition carries default values (fix patch 06)
 	keepDefaults bool
+	// clonesAll: Clone also copies the named types Inspect does not reach (finding F-10i repaired)
+	clonesAll bool
 }
 
 func (h *harness) count(k string) {
@@ -542,35 +544,89 @@ func (h *harness) clonePart(c *Case, bt *built, s *schema.Schema) (fails []failu
 			}
 		}
 	}
-	// (1b) every configured attribute survives (typed extraction, identities erased)
-	x1, xerr1 := extract(bt.def, newIDAlloc(1))
-	x2, xerr2 := extract(cl, newIDAlloc(1))
-	if xerr1 != nil || xerr2 != nil {
-		fail(failure{Part: "clone", Kind: "property", Class: "clone-content-differs", What: fmt.Sprintf("definition cannot be abstracted: original %v, clone %v", xerr1, xerr2)})
-	} else if a, b := eraseIDs(x1).String(), eraseIDs(x2).String(); a != b {
-		fail(failure{Part: "clone", Kind: "property", Class: "clone-content-differs", What: "the clone's contents differ from the original's: " + firstDiff(a, b)})
-	}
 	// (2) no mutable container is shared
+	// Known finding F-10i: Clone copies the named types schema.Inspect visits; a named type that is
+	// part of the definition only through a directive applied to an element Inspect does not look
+	// into (anything but an enum / scalar type) keeps its struct, so it — and everything reachable
+	// from it in the ORIGINAL — is reachable from the clone. Exactly that set is attributed to the
+	// finding; any other shared container is a violation.
+	var f10i map[string]bool
+	if ni := c.S.notInspected(); len(ni) > 0 && !h.clonesAll {
+		var ts []schema.NamedType
+		for _, n := range ni {
+			if t, ok := bt.types[n]; ok {
+				ts = append(ts, t)
+			}
+		}
+		f10i = collectFrom(ts).keys()
+		h.count("clone:definitions-with-types-reachable-by-pointer-only")
+	}
 	w1, w2 := collect(bt.def), collect(cl)
 	h.count("clone:containers-walked")
 	if !h.quiet {
 		h.run.CountN("clone:containers", len(w1.out))
 	}
+	sharedKnown := false
 	if sh := shared(w1, w2); len(sh) > 0 {
-		kinds := map[string]bool{}
+		var other, known []container
 		for _, c := range sh {
-			kinds[c.Kind+" "+c.Type] = true
+			if f10i[fmt.Sprintf("%s:%x", c.Kind, c.Addr)] {
+				known = append(known, c)
+			} else {
+				other = append(other, c)
+			}
 		}
-		var ks []string
-		for k := range kinds {
-			ks = append(ks, k)
+		report := func(sh []container, finding string) {
+			kinds := map[string]bool{}
+			for _, c := range sh {
+				kinds[c.Kind+" "+c.Type] = true
+			}
+			var ks []string
+			for k := range kinds {
+				ks = append(ks, k)
+			}
+			sort.Strings(ks)
+			fail(failure{Part: "clone", Kind: "property", Class: "clone-shared", Finding: finding, What: fmt.Sprintf("the clone shares %d mutable container(s) with its original, e.g. %s %s at %s (kinds: %s)", len(sh), sh[0].Kind, sh[0].Type, sh[0].Path, strings.Join(ks, "; "))})
 		}
-		sort.Strings(ks)
-		fail(failure{Part: "clone", Kind: "property", Class: "clone-shared", What: fmt.Sprintf("the clone shares %d mutable container(s) with its original, e.g. %s %s at %s (kinds: %s)", len(sh), sh[0].Kind, sh[0].Type, sh[0].Path, strings.Join(ks, "; "))})
+		if len(other) > 0 {
+			report(other, "")
+		}
+		if len(known) > 0 {
+			sharedKnown = true
+			report(known, "F-10i-clone-shares-types-inspect-does-not-reach")
+		}
+	}
+	if !sharedKnown {
+		f10i = nil
+	}
+	// (1b) every configured attribute survives (typed extraction, identities erased)
+	x1, xerr1 := extract(bt.def, newIDAlloc(1))
+	x2, xerr2 := extract(cl, newIDAlloc(1))
+	cloneTwoStructs := false
+	if sharedKnown && xerr1 == nil && xerr2 != nil && strings.HasPrefix(xerr2.Error(), "two distinct named types called") {
+		// (F-10i) the shared type still points at the original of a type the clone has a copy of:
+		// the clone cannot be written with by-name references
+		cloneTwoStructs = true
+		h.count("clone:F-10i:clone-has-two-structs-of-one-name")
+	} else if xerr1 != nil || xerr2 != nil {
+		fail(failure{Part: "clone", Kind: "property", Class: "clone-content-differs", What: fmt.Sprintf("definition cannot be abstracted: original %v, clone %v", xerr1, xerr2)})
+	} else if a, b := eraseIDs(x1).String(), eraseIDs(x2).String(); a != b {
+		fail(failure{Part: "clone", Kind: "property", Class: "clone-content-differs", What: "the clone's contents differ from the original's: " + firstDiff(a, b)})
 	}
 	// (tie) sharing pattern and contents vs the model's clone over the heap model
-	if h.model != nil && !h.quiet {
+	// (the record model's cloneDef keeps the struct of a type Inspect does not reach, like the
+	// implementation with finding F-10i; on a repaired tree such definitions are left to the heap tie)
+	if h.model != nil && !h.quiet && !cloneTwoStructs && !(h.clonesAll && len(c.S.notInspected()) > 0) {
 		if f := h.tieClone(bt, cl); f != nil {
+			f.NoInput = unexplained(fails) == 0
+			if f.NoInput {
+				fail(*f)
+			}
+		}
+	}
+	// (tie) the clone as a pointer graph vs the heap model's clone (heapgraph.go)
+	if h.model != nil && !h.quiet {
+		if f := h.tieHeapClone(c, bt, cl); f != nil {
 			f.NoInput = unexplained(fails) == 0
 			if f.NoInput {
 				fail(*f)
@@ -582,7 +638,7 @@ func (h *harness) clonePart(c *Case, bt *built, s *schema.Schema) (fails []failu
 	if xerr1 == nil {
 		dumpBefore = x1.String()
 	}
-	if err := mutateAll(cl); err != nil {
+	if err := mutateAll(cl, f10i); err != nil {
 		fail(failure{Part: "clone", Kind: "crash", Class: "mutate-panic", What: err.Error()})
 		return fails
 	}
@@ -731,6 +787,8 @@ func (h *harness) distribution(d *SDef) {
 	h.count("schema:gated-members:" + bucket(nGated))
 	h.count("schema:deprecated-members:" + bucket(nDepr))
 	h.count(fmt.Sprintf("schema:custom-directives:%d", len(d.Dirs)))
+	h.count(fmt.Sprintf("schema:unlisted-directive-definitions:%d", len(d.UDirs)))
+	h.appliedStats(d)
 }
 
 func bucket(n int) string {
@@ -1054,6 +1112,12 @@ func main() {
 		defer m.Close()
 	}
 	h.keepDefaults = keepsDefaults()
+	h.clonesAll = clonesUninspectedTypes()
+	if h.clonesAll {
+		run.Note("Clone copies named types that schema.Inspect does not reach (finding F-10i repaired): pass 1 of the heap model = every named type reachable by pointer")
+	} else {
+		run.Note("Clone keeps the struct of a named type that schema.Inspect does not reach (finding F-10i): pass 1 of the heap model = what Inspect reaches")
+	}
 	if h.keepDefaults {
 		run.Note("GetSchemaDefinition keeps default values (fix patch 06 present): model variant rebuildKeep")
 	} else {
